@@ -23,6 +23,9 @@ var (
 // This does not affect tests that pass a stream of fixed bytes as the random
 // source (e.g. a zeroReader).
 func MaybeReadByte(r io.Reader) {
+	if verifMaybeRead(r) {
+		return
+	}
 	closedChanOnce.Do(func() {
 		closedChan = make(chan struct{})
 		close(closedChan)
